@@ -41,6 +41,24 @@ pub mod punctuated {
     }
 }
 
+pub mod ext {
+    /// `IdentExt::unraw`: the identifiers of the harness carry their text without `r#`
+    pub trait IdentExt { fn unraw(&self) -> super::Ident; }
+    impl IdentExt for super::Ident { fn unraw(&self) -> super::Ident { *self } }
+}
+
+/// a type: the harness only needs to tell the field types apart
+#[derive(Clone, Copy, Debug, PartialEq, Eq)]
+pub struct Type(pub u8);
+#[derive(Debug)]
+pub struct Field { pub ident: Option<Ident>, pub ty: Type }
+#[derive(Debug)]
+pub struct FieldsNamed { pub named: punctuated::Punctuated<Field, token::Comma> }
+#[derive(Debug)]
+pub struct FieldsUnnamed { pub unnamed: punctuated::Punctuated<Field, token::Comma> }
+#[derive(Debug)]
+pub enum Fields { Named(FieldsNamed), Unnamed(FieldsUnnamed), Unit }
+
 pub mod lookahead { pub enum TokenMarker {} }
 pub fn Ident(marker: lookahead::TokenMarker) -> Ident { match marker {} }
 
